@@ -19,7 +19,7 @@ package xpub
 //@   ensures name == protocol.OptionWriteQLen ==> (isnil(result) <==> is_int(value) && 0 <= int_of(value))
 //@   ensures name == protocol.OptionWriteQLen && !isnil(result) ==> result == protocol.ErrBadValue
 //@   ensures name == protocol.OptionWriteQLen && isnil(result) ==> s.sendQLen == int_of(value)
-//@   ensures !isnil(result) ==> unchanged(s.sendQLen)
+//@   ensures !isnil(result) && (name == protocol.OptionWriteQLen) ==> unchanged(s.sendQLen)
 //@
 //@ func (*socket).GetOption
 //@   ensures option != protocol.OptionWriteQLen && option != protocol.OptionRaw ==> result1 == protocol.ErrBadOption && isnil(result0)
